@@ -660,6 +660,23 @@ void repetitionsCase(Ctx& ctx)
 			for (int k = 0; k < N / 3; ++k) { std::unique_ptr<Archive::ArchiveFile> again; if (vol) again = std::make_unique<Archive::VolFile>(dir + "/a.vol"); else again = std::make_unique<Archive::ClmFile>(dir + "/a.clm"); if (again->GetCount() != 2) throw std::runtime_error("reopened archive number " + std::to_string(k)); }
 			ctx.count("repetitions/archives");
 		}
+		{
+			// a slice made at the current position can fail for a reason other than its bounds (the file has been renamed): the
+			// parent, file reader or slice, stays where it was
+			mc::writeFile(dir + "/gone.bin", pattern(64));
+			Stream::FileReader parent(dir + "/gone.bin");
+			auto outer = parent.Slice(8, 40);
+			parent.Seek(16); outer.Seek(5);
+			if (::rename((dir + "/gone.bin").c_str(), (dir + "/moved.bin").c_str()) != 0) std::abort();
+			for (int which = 0; which < 2; ++which) {
+				bool threw = false;
+				try { if (which) outer.Slice(4); else parent.Slice(4); } catch (const std::exception&) { threw = true; }
+				uint64_t pos = which ? outer.Position() : parent.Position();
+				if (threw && pos != (which ? 5u : 16u)) throw std::runtime_error(std::string(which ? "file slice" : "file reader") + ": Slice(4) failed (file renamed) but the parent moved to " + std::to_string(pos));
+				if (!threw && pos != (which ? 9u : 20u)) throw std::runtime_error("Slice(4) succeeded but the parent is at " + std::to_string(pos));
+				ctx.count(threw ? "repetitions/slice-failed-for-another-reason-than-bounds" : "repetitions/slice-of-a-renamed-file-succeeded");
+			}
+		}
 		Stream::FileReader fr(dir + "/a.vol");
 		for (int k = 0; k < N; ++k) { auto sl = fr.Slice(0, 4); char t[4]; sl.Read(t, 4); if (std::string(t, 4) != "VOL ") throw std::runtime_error("slice number " + std::to_string(k) + " of one FileReader"); }
 	});
@@ -773,7 +790,10 @@ void equivCase(std::size_t which, Ctx& ctx)
 {
 	static const std::size_t lens[] = { 0, 1, 3, 5 };
 	std::string dir = ctx.freshDir("c13c");
-	Equiv e{ ctx, pattern(lens[which], 0x31) };
+	// byte values with a special meaning somewhere below the streams: 0xFF (EOF as a char), 0x00, 0x1A (end of file in text mode), line ends
+	std::vector<uint8_t> special = { 0xFF, 0x00, 0x1A, 0x0A, 0xFF, 0x0D, 0xFF, 0x7F, 0x80, 0xFF, 0x0A, 0x0D, 0x1A };
+	special.resize(lens[which]);
+	Equiv e{ ctx, special };
 	e.path = dir + "/plain.bin"; e.framedPath = dir + "/framed.bin";
 	mc::writeFile(e.path, e.bytes);
 	std::vector<uint8_t> framed = { 0xC0, 0xC1, 0xC2 }; framed.insert(framed.end(), e.bytes.begin(), e.bytes.end()); framed.push_back(0xC3); framed.push_back(0xC4);
